@@ -31,6 +31,34 @@ pub fn jump_targets() -> Vec<u64> {
         v.push((h << 32) | 0xffff_ffff);
     }
     v.extend_from_slice(&[(1u64 << 32) - 1, 1u64 << 63, u64::MAX - 2, u64::MAX - 1, u64::MAX]);
+    // numbers that are limits *somewhere else* (other protocols' AEAD usage limits such as
+    // 2^24.5 = 23726566 records, rekey thresholds, decimal round numbers): HPKE has none of them
+    let mut limits: Vec<u64> = vec![];
+    for k in 16..64u32 {
+        // floor(2^(k + 1/2)) = isqrt(2^(2k+1))
+        let n: u128 = 1u128 << (2 * k + 1);
+        let mut x = (n as f64).sqrt() as u128;
+        while x * x > n {
+            x -= 1;
+        }
+        while (x + 1) * (x + 1) <= n {
+            x += 1;
+        }
+        if x <= u64::MAX as u128 {
+            limits.push(x as u64);
+        }
+    }
+    let mut d = 1000u64;
+    while d < u64::MAX / 10 {
+        limits.push(d);
+        d *= 10;
+    }
+    limits.extend_from_slice(&[u64::MAX - (1 << 13), (1u64 << 36) - 32, (1u64 << 32) - 2, 1u64 << 60, 1u64 << 52, 1u64 << 48, 1u64 << 23]);
+    for l in limits {
+        v.push(l - 2);
+        v.push(l - 1);
+        v.push(l);
+    }
     v.sort();
     v.dedup();
     v
@@ -81,6 +109,44 @@ pub fn gen_cfg(rng: &mut Prng, suite: SuiteId, mode: ModeKind, cap: usize) -> Cf
     } else {
         (vec![], vec![])
     };
+    let (mut info, mut psk, mut psk_id) = (info, psk, psk_id);
+    if rng.chance(1, 20) {
+        // inputs shaped like the protocol's own framing: "HPKE-v1", optionally followed by this
+        // suite's id and one of the RFC labels, then arbitrary bytes. They are ordinary data.
+        let mut v = b"HPKE-v1".to_vec();
+        if rng.chance(2, 3) {
+            v.extend_from_slice(&refhpke::hpke_suite_id(suite.kem, suite.kdf, suite.aead));
+            if rng.chance(2, 3) {
+                v.extend_from_slice(*rng.pick(&[&b"info_hash"[..], b"psk_id_hash", b"secret", b"key", b"base_nonce", b"exp", b"sec"]));
+            }
+        }
+        let tl = rng.range(0, 20);
+        v.extend_from_slice(&rng.rand_bytes(tl));
+        match rng.below(3) {
+            0 => info = v,
+            1 if mode.has_psk() && !psk.is_empty() => psk_id = v,
+            _ if mode.has_psk() && !psk_id.is_empty() => psk = v,
+            _ => info = v,
+        }
+    }
+    if mode.has_psk() && psk.len() >= 2 && rng.chance(1, 30) {
+        // an id that is a prefix of the key, or a key that is a prefix of the id
+        let k = rng.range(1, psk.len() - 1);
+        if rng.chance(1, 2) {
+            psk_id = psk[..k].to_vec();
+        } else {
+            psk_id = psk.clone();
+            psk_id.extend_from_slice(&rng.rand_bytes(3));
+        }
+    }
+    if mode.has_psk() && !psk.is_empty() && rng.chance(1, 25) {
+        // equal contents in two arguments (the adapter passes one buffer for both, on one side or both)
+        match rng.below(3) {
+            0 if !info.is_empty() => psk_id = info.clone(),
+            1 => info = psk_id.clone(),
+            _ => info = psk.clone(),
+        }
+    }
     Cfg { suite, mode, info: b(info), psk: b(psk), psk_id: b(psk_id) }
 }
 
@@ -202,6 +268,13 @@ fn seal_ev(rng: &mut Prng, c: usize, pt: B, aad: B) -> Ev {
 
 fn rng_script(rng: &mut Prng, kem: KemId) -> B {
     let nsk = kem.rfc_sizes().2;
+    if rng.chance(1, 40) {
+        // RNG output whose derived key is special (extreme Hamming weight, leading ffffffff / 00000000)
+        let c: Vec<&crate::special::SkSpecial> = crate::special::SK_TABLE.iter().filter(|e| e.kem == kem && e.ikm.len() == 2 * nsk).collect();
+        if !c.is_empty() {
+            return b(unhex(rng.pick(&c).ikm));
+        }
+    }
     if kem == KemId::P256 && rng.chance(1, 64) {
         let v = unhex(P256_RETRY_RNG[0]);
         if refhpke::derive_keypair(kem, &v).2 > 0 {
@@ -263,13 +336,50 @@ fn special_dh_session(ev: &mut Vec<Ev>, rng: &mut Prng, c: usize, cfg: &Cfg, s_m
     true
 }
 
+/// X25519 private keys that are legal (every 32-byte string is) but special after clamping: all bits
+/// that clamping does not force are clear (the scalar is 2^254), all set, only a clamped-away bit set,
+/// the scalar that acts as -1 on the prime-order subgroup (5l - 1: DH returns the peer's own point),
+/// tiny multiples of 8.
+pub fn x25519_special_sk(rng: &mut Prng) -> Vec<u8> {
+    let mut v = vec![0u8; 32];
+    match rng.below(8) {
+        0 => {}
+        1 => v = vec![0xff; 32],
+        2 => {
+            v[0] = rng.range(1, 7) as u8;
+            v[31] = *rng.pick(&[0x00u8, 0x40, 0x80, 0xc0]);
+        }
+        3 => v[31] = 0x40,
+        4 => v = unhex("a023cdd083ef5bb82f10d62e59e15a6800000000000000000000000000000050"),
+        5 => v[0] = 8 * rng.range(1, 31) as u8,
+        6 => {
+            let i = rng.below(32) as usize;
+            v[i] = 1 << rng.below(8);
+        }
+        _ => {
+            v[0] = 0xf8;
+            v[31] = 0x7f;
+            for b in v[1..31].iter_mut() {
+                *b = 0xff;
+            }
+        }
+    }
+    v
+}
+
 fn setup_pair(ev: &mut Vec<Ev>, rng: &mut Prng, c: usize, cfg: &Cfg, s_model: bool, r_model: bool) {
     let kem = cfg.suite.kem;
     let nsk = kem.rfc_sizes().2;
     if rng.chance(1, 24) && special_dh_session(ev, rng, c, cfg, s_model, r_model) {
         return;
     }
-    let ikm_r = if rng.chance(1, 30) { b(rng.rand_bytes(nsk)) } else { ikm(rng) };
+    let mut ikm_r = if rng.chance(1, 30) { b(rng.rand_bytes(nsk)) } else { ikm(rng) };
+    if rng.chance(1, 40) {
+        let c: Vec<&crate::special::SkSpecial> = crate::special::SK_TABLE.iter().filter(|e| e.kem == kem).collect();
+        if !c.is_empty() {
+            ikm_r = b(unhex(rng.pick(&c).ikm));
+        }
+    }
     if rng.chance(1, 25) {
         // special private keys as the recipient's: scalar 1, 2, n-1, n-2 (NIST); for X25519 a private
         // key that differs from a derived one only in bits that RFC 7748 clamping discards (same
@@ -286,6 +396,10 @@ fn setup_pair(ev: &mut Vec<Ev>, rng: &mut Prng, c: usize, cfg: &Cfg, s_model: bo
             };
             let sk = s_.to_be(nsk);
             let pk = refhpke::pk_of(kem, &sk).expect("special scalar has a public key");
+            (sk, pk)
+        } else if rng.chance(1, 2) {
+            let sk = x25519_special_sk(rng);
+            let pk = refhpke::pk_of(kem, &sk).expect("every 32-byte string is an X25519 private key");
             (sk, pk)
         } else {
             let (mut sk, pk, _) = refhpke::derive_keypair(kem, &ikm_r);
@@ -322,13 +436,37 @@ fn setup_pair(ev: &mut Vec<Ev>, rng: &mut Prng, c: usize, cfg: &Cfg, s_model: bo
     } else {
         rng_script(rng, kem)
     };
-    ev.push(Ev::SetupS { c, cfg: cfg.clone(), kr: 2 * c, ks, ks_pub: None, rng: script, model_only: s_model });
+    ev.push(Ev::SetupS { c, cfg: cfg.clone(), kr: 2 * c, ks, ks_pub: None, rng: script.clone(), model_only: s_model });
     ev.push(Ev::SetupR { c, cfg: cfg.clone(), kr: 2 * c, ks, enc: EncSrc::Of(c), model_only: r_model });
+    if kem == KemId::X25519 && cfg.mode.has_auth() && ikm_s.is_some() && rng.chance(1, 6) {
+        // a second receiver that holds the sender's public key in its other encoding (bit 255 set):
+        // RFC 9180 puts the bytes *as held* into kem_context, so this receiver derives other keys than
+        // the sender - also when the ephemeral key happens to equal the identity key
+        let (_, pk_s, _) = refhpke::derive_keypair(kem, ikm_s.as_ref().unwrap());
+        ev.push(Ev::KeyRaw { k: 40 + c, kem, sk: b(vec![]), pk: b(math::x25519_twin(&pk_s)) });
+        ev.push(Ev::SetupR { c: 20 + c, cfg: cfg.clone(), kr: 2 * c, ks: Some(40 + c), enc: EncSrc::Of(c), model_only: false });
+        ev.push(Ev::Export { c: 20 + c, role: Role::R, ctx: b(vec![]), len: 32 });
+    }
 }
 
 fn msg(rng: &mut Prng, big: bool) -> (B, B) {
     let cap = if big && rng.chance(1, 40) { 70001 } else { 300 };
-    (b(rng.var_bytes(cap)), b(rng.var_bytes(cap.min(5000))))
+    let mut pt = rng.var_bytes(cap);
+    let mut aad = rng.var_bytes(cap.min(5000));
+    if rng.chance(1, 12) {
+        // packet / page / record sized messages (and now and then such an aad)
+        let l = rng.sys_len();
+        pt = rng.bytes(l);
+        if rng.chance(1, 6) {
+            let l = rng.sys_len();
+            aad = rng.bytes(l);
+        }
+    }
+    if !pt.is_empty() && rng.chance(1, 30) {
+        // equal contents (the adapter then passes one buffer for both arguments)
+        aad = pt.clone();
+    }
+    (b(pt), b(aad))
 }
 
 fn rng_big(rng: &mut Prng) -> bool {
@@ -358,6 +496,9 @@ pub fn gen_c01(rng: &mut Prng, run: u64, t: &Tier) -> Vec<Ev> {
     }
     if run == 6 || (t.thorough && run % 50_000 == 78) {
         return single_huge_message(rng, run);
+    }
+    if run == 7 || (t.thorough && run % 50_000 == 79) {
+        return huge_alloc_case(rng, run);
     }
     let (suite, mode) = suite_mode_biased(run, rng, &SEAL_AEADS, false);
     let cfg = gen_cfg(rng, suite, mode, 300);
@@ -433,6 +574,23 @@ pub fn gen_c01(rng: &mut Prng, run: u64, t: &Tier) -> Vec<Ev> {
             }
         }
     }
+    if suite.kem == KemId::X25519 && rng.chance(1, 6) {
+        // a recipient (or an authenticated sender) whose private key is special but legal
+        let sk = x25519_special_sk(rng);
+        let pk = refhpke::pk_of(suite.kem, &sk).unwrap();
+        ev.push(Ev::KeyRaw { k: 12, kem: suite.kem, sk: b(sk), pk: b(pk) });
+        ev.push(Ev::Keygen { k: 13, kem: suite.kem, ikm: ikm(rng) });
+        let (kr6, ks6) = if cfg.mode.has_auth() && rng.chance(1, 2) { (13, Some(12)) } else { (12, if cfg.mode.has_auth() { Some(13) } else { None }) };
+        ev.push(Ev::SetupS { c: 6, cfg: cfg.clone(), kr: kr6, ks: ks6, ks_pub: None, rng: rng_script(rng, suite.kem), model_only: false });
+        ev.push(Ev::SetupR { c: 6, cfg: cfg.clone(), kr: kr6, ks: ks6, enc: EncSrc::Of(6), model_only: false });
+        if suite.aead.seals() {
+            for _ in 0..2 {
+                let (pt, aad) = msg(rng, false);
+                ev.push(seal_ev(rng, 6, pt, aad));
+                ev.push(Ev::Deliver { r: 6, from: 6, rec: RecRef::Next, fault: Fault::None, api: open_api(rng) });
+            }
+        }
+    }
     if rng.chance(1, 6) && special_dh_session(&mut ev, rng, 5, &cfg, false, false) && suite.aead.seals() {
         for _ in 0..2 {
             let (pt, aad) = msg(rng, false);
@@ -453,6 +611,21 @@ pub fn gen_c02(rng: &mut Prng, run: u64, _t: &Tier) -> Vec<Ev> {
     setup_pair(&mut ev, rng, 0, &cfg, false, true);
     setup_pair(&mut ev, rng, 1, &cfg, true, false);
     setup_pair(&mut ev, rng, 2, &cfg, false, false);
+    if suite.kem == KemId::X25519 && mode.has_auth() && rng.chance(1, 4) {
+        // the sender's RNG returns the ikm of its own identity key (ephemeral = identity key pair), and
+        // the receiver holds the sender's public key in its other encoding (bit 255 set): kem_context
+        // takes the bytes as held, so the two sides must disagree exactly as the model says
+        let ikm_s = rng.rand_bytes(32);
+        let (_, pk_s, _) = refhpke::derive_keypair(suite.kem, &ikm_s);
+        ev.push(Ev::Keygen { k: 30, kem: suite.kem, ikm: ikm(rng) });
+        ev.push(Ev::Keygen { k: 31, kem: suite.kem, ikm: b(ikm_s.clone()) });
+        ev.push(Ev::KeyRaw { k: 32, kem: suite.kem, sk: b(vec![]), pk: b(math::x25519_twin(&pk_s)) });
+        ev.push(Ev::SetupS { c: 9, cfg: cfg.clone(), kr: 30, ks: Some(31), ks_pub: None, rng: b(ikm_s), model_only: false });
+        ev.push(Ev::SetupR { c: 9, cfg: cfg.clone(), kr: 30, ks: Some(32), enc: EncSrc::Of(9), model_only: false });
+        ev.push(Ev::Export { c: 9, role: Role::R, ctx: b(vec![]), len: 32 });
+        ev.push(Ev::SetupR { c: 10, cfg: cfg.clone(), kr: 30, ks: Some(31), enc: EncSrc::Of(9), model_only: false });
+        ev.push(Ev::ExportCmp { s: 9, r: 10, ctx: b(vec![]), len: 32 });
+    }
     let seals = suite.aead.seals();
     let n = rng.range(1, 6);
     for _ in 0..n {
@@ -561,6 +734,12 @@ pub fn gen_c03(rng: &mut Prng, run: u64, _t: &Tier) -> Vec<Ev> {
         let s = P256_RETRY_IKM[(run / 4 % 3) as usize];
         ev.push(Ev::DeriveProbe { kem, ikm: b(unhex(s)) });
     }
+    for e in crate::special::SK_TABLE.iter().filter(|e| e.kem == kem) {
+        // ikm whose first candidate starts with ffffffff / 00000000 (valid scalars: must be taken)
+        if rng.chance(1, 3) {
+            ev.push(Ev::DeriveProbe { kem, ikm: b(unhex(e.ikm)) });
+        }
+    }
     ev.push(Ev::GenProbe { kem, rng: rng_script(rng, kem) });
     ev.push(Ev::Keygen { k: 0, kem, ikm: ikm(rng) });
     ev.push(Ev::Keygen { k: 1, kem, ikm: ikm(rng) });
@@ -568,6 +747,15 @@ pub fn gen_c03(rng: &mut Prng, run: u64, _t: &Tier) -> Vec<Ev> {
     ev.push(Ev::KemProbe { kem, kr: 0, ks: None, rng: rng_script(rng, kem) });
     ev.push(Ev::KemProbe { kem, kr: 0, ks: Some(1), rng: rng_script(rng, kem) });
     ev.push(Ev::KemProbe { kem, kr: 2, ks: Some(0), rng: rng_script(rng, kem) });
+    if kem == KemId::X25519 && rng.chance(1, 4) {
+        // AuthEncap / AuthDecap where the ephemeral key pair *is* the identity key pair (the RNG returns
+        // its ikm) and the identity public key is held in its other encoding (bit 255 set)
+        let ikm_s = rng.rand_bytes(32);
+        let (sk_s, pk_s, _) = refhpke::derive_keypair(kem, &ikm_s);
+        let held = if rng.chance(2, 3) { math::x25519_twin(&pk_s) } else { pk_s };
+        ev.push(Ev::KeyRaw { k: 11, kem, sk: b(sk_s), pk: b(held) });
+        ev.push(Ev::KemProbe { kem, kr: 0, ks: Some(11), rng: b(ikm_s) });
+    }
     if kem == KemId::X25519 && rng.chance(1, 2) {
         // any 32-byte string that is not of small order is a usable recipient key: tiny u-coordinates,
         // points on the quadratic twist (half of all strings), non-canonical values
@@ -633,6 +821,23 @@ fn single_huge_message(rng: &mut Prng, run: u64) -> Vec<Ev> {
     ev
 }
 
+/// The allocating seal/open with a plaintext and an aad of 2^31 bytes each (and other splits whose sum
+/// passes 2^32), then ordinary traffic
+fn huge_alloc_case(rng: &mut Prng, run: u64) -> Vec<Ev> {
+    let mut ev = vec![];
+    let aead = SEAL_AEADS[(run / 3 % 3) as usize];
+    let cfg = gen_cfg(rng, SuiteId { kem: KemId::X25519, kdf: KdfId::S256, aead, shim: false }, ModeKind::Base, 10);
+    setup_pair(&mut ev, rng, 0, &cfg, false, false);
+    let (a, c) = *rng.pick(&[(1u64 << 31, 1u64 << 31), ((1 << 31) + 5, (1 << 31) - 5), ((1 << 32) - 16, 16), (3 << 30, 1 << 30)]);
+    ev.push(Ev::HugeAlloc { c: 0, pt_len: a, aad_len: c });
+    for _ in 0..2 {
+        let (pt, aad) = msg(rng, false);
+        ev.push(Ev::Seal { c: 0, pt, aad, inplace: rng.chance(1, 2) });
+        ev.push(Ev::Deliver { r: 0, from: 0, rec: RecRef::Next, fault: Fault::None, api: OpenApi::Alloc });
+    }
+    ev
+}
+
 pub fn gen_c04(rng: &mut Prng, run: u64, t: &Tier) -> Vec<Ev> {
     if run == 6 || (t.thorough && run % 100_000 == 78) {
         return single_huge_message(rng, run);
@@ -663,9 +868,24 @@ pub fn gen_c04(rng: &mut Prng, run: u64, t: &Tier) -> Vec<Ev> {
                     to += rng.below((hi - to).max(1));
                 }
                 pos_idx += 1;
-                ev.push(Ev::Jump { c: 0, role: Role::S, to });
-                if !shim {
-                    ev.push(Ev::Jump { c: 0, role: Role::R, to });
+                if rng.chance(1, 8) {
+                    let pat = if rng.chance(1, 2) { u64::MAX - rng.below(3) } else { *rng.pick(&targets) };
+                    ev.push(Ev::JumpNonceXor { c: 0, role: Role::S, pat });
+                    if !shim {
+                        ev.push(Ev::JumpNonceXor { c: 0, role: Role::R, pat });
+                    }
+                } else if rng.chance(1, 5) {
+                    let keep_top = rng.range(1, 8) as u8;
+                    let low = if rng.chance(1, 2) { rng.below(300) } else { rng.next_u64() };
+                    ev.push(Ev::JumpNonceRel { c: 0, role: Role::S, keep_top, low });
+                    if !shim {
+                        ev.push(Ev::JumpNonceRel { c: 0, role: Role::R, keep_top, low });
+                    }
+                } else {
+                    ev.push(Ev::Jump { c: 0, role: Role::S, to });
+                    if !shim {
+                        ev.push(Ev::Jump { c: 0, role: Role::R, to });
+                    }
                 }
             }
         } else if choice == 3 && shim && step > 0 {
@@ -807,11 +1027,29 @@ pub fn gen_history(rng: &mut Prng, run: u64, o: &HistOpts) -> Vec<Ev> {
             ev.push(Ev::Deliver { r: c, from, rec, fault, api });
         } else if roll < 76 && o.jumps && seals {
             let to = if rng.chance(3, 4) { *rng.pick(&targets) } else { rng.next_u64() };
-            match rng.below(4) {
-                0 => ev.push(Ev::Jump { c, role: Role::R, to }),
-                _ => {
-                    ev.push(Ev::Jump { c, role: Role::S, to });
-                    ev.push(Ev::Jump { c, role: Role::R, to });
+            if rng.chance(1, 8) {
+                // the position at which the counter part of the *mixed* nonce is all ones, 2^k - 1, ...
+                let pat = if rng.chance(1, 2) { u64::MAX - rng.below(3) } else { *rng.pick(&targets) };
+                if !rng.chance(1, 4) {
+                    ev.push(Ev::JumpNonceXor { c, role: Role::S, pat });
+                }
+                ev.push(Ev::JumpNonceXor { c, role: Role::R, pat });
+            } else if rng.chance(1, 4) {
+                // a position whose top bytes equal those of the base nonce (its low bytes: a small
+                // number, e.g. the position of an earlier record)
+                let keep_top = rng.range(1, 8) as u8;
+                let low = if rng.chance(3, 4) { rng.below(6) } else { rng.next_u64() };
+                if !rng.chance(1, 4) {
+                    ev.push(Ev::JumpNonceRel { c, role: Role::S, keep_top, low });
+                }
+                ev.push(Ev::JumpNonceRel { c, role: Role::R, keep_top, low });
+            } else {
+                match rng.below(4) {
+                    0 => ev.push(Ev::Jump { c, role: Role::R, to }),
+                    _ => {
+                        ev.push(Ev::Jump { c, role: Role::S, to });
+                        ev.push(Ev::Jump { c, role: Role::R, to });
+                    }
                 }
             }
             if rng.chance(1, 2) {
@@ -835,12 +1073,32 @@ pub fn gen_history(rng: &mut Prng, run: u64, o: &HistOpts) -> Vec<Ev> {
             let role = if rng.chance(1, 2) { Role::S } else { Role::R };
             ev.push(Ev::Export { c, role, ctx: ctx.clone(), len });
             if rng.chance(1, 3) {
-                ev.push(Ev::Export { c, role: if role == Role::S { Role::R } else { Role::S }, ctx, len });
+                ev.push(Ev::Export { c, role: if role == Role::S { Role::R } else { Role::S }, ctx: ctx.clone(), len });
+            }
+            if rng.chance(1, 3) {
+                // the same exporter context again with other lengths (shorter, longer, equal): every
+                // export is a function of (context, length) alone, not of the previous export
+                for _ in 0..rng.range(1, 3) {
+                    let l2 = match rng.below(4) {
+                        0 => len / 2,
+                        1 => len.saturating_sub(1),
+                        2 => len + 1 + rng.range(0, 40),
+                        _ => len,
+                    };
+                    ev.push(Ev::Export { c, role, ctx: ctx.clone(), len: l2 });
+                }
             }
         } else if roll < 88 && o.restart {
             // receiver restart from its durable inputs (skR, enc, info)
             let cfg = cfgs[c].clone();
             ev.push(Ev::SetupR { c, cfg: cfg.clone(), kr: 2 * c, ks: if cfg.mode.has_auth() { Some(2 * c + 1) } else { None }, enc: EncSrc::Of(c), model_only: false });
+            after_special = true;
+        } else if roll < 91 && cfgs[c].suite.shim && rng.chance(1, 2) {
+            // transient decryption fault at the receiver: refused once, then the same message opens
+            ev.push(Ev::FailNextOpen { r: c });
+            for _ in 0..2 {
+                ev.push(Ev::Deliver { r: c, from: c, rec: RecRef::Next, fault: Fault::None, api: open_api(rng) });
+            }
             after_special = true;
         } else if roll < 91 && cfgs[c].suite.shim {
             ev.push(Ev::FailNextSeal { c });
@@ -895,6 +1153,9 @@ pub fn gen_history(rng: &mut Prng, run: u64, o: &HistOpts) -> Vec<Ev> {
 }
 
 pub fn gen_c05(rng: &mut Prng, run: u64, t: &Tier) -> Vec<Ev> {
+    if run == 7 || (t.thorough && run % 50_000 == 79) {
+        return huge_alloc_case(rng, run);
+    }
     let o = HistOpts {
         sessions: rng.range(1, 3),
         steps: if t.thorough && rng.chance(1, 10) { 2000 } else { rng.range(10, 120) },
@@ -1024,6 +1285,12 @@ fn perturb_bytes(rng: &mut Prng, v: &[u8]) -> Vec<u8> {
 }
 
 pub fn gen_c07(rng: &mut Prng, run: u64, _t: &Tier) -> Vec<Ev> {
+    if run == 8 || (_t.thorough && (run == 9 || run == 10)) {
+        // one configuration string longer than 2^32 bytes per batch (thorough: info, psk_id and psk)
+        let suite = SuiteId { kem: KemId::X25519, kdf: KdfId::S256, aead: AeadId::ChaCha, shim: false };
+        let field = if _t.thorough { (run - 8) as u8 } else { rng.below(3) as u8 };
+        return vec![Ev::HugeFieldProbe { suite, field, pad: (1u64 << 32) + rng.below(9) }];
+    }
     let mut ev = vec![];
     let (suite, mode) = suite_mode_biased(run, rng, &SEAL_AEADS, false);
     let mut cfg = gen_cfg(rng, suite, mode, 300);
@@ -1031,7 +1298,7 @@ pub fn gen_c07(rng: &mut Prng, run: u64, _t: &Tier) -> Vec<Ev> {
         cfg.psk = b(vec![]);
         cfg.psk_id = b(vec![]);
     } else if rng.chance(1, 6) {
-        let l = *rng.pick(&[65usize, 100, 129, 200, 1025, 2048, 5000]);
+        let l = *rng.pick(&[65usize, 100, 129, 200, 1025, 2048, 5000, 8161, 12241, 16321, 20000]);
         cfg.psk = b(rng.rand_bytes(l));
     }
     let kem = suite.kem;
@@ -1049,7 +1316,25 @@ pub fn gen_c07(rng: &mut Prng, run: u64, _t: &Tier) -> Vec<Ev> {
     if !psk_mode && (choice == 1 || choice == 2 || choice == 3) {
         choice = 0;
     }
+    // the field wrapped in the protocol's own framing for that field ("HPKE-v1" || suite_id || label ||
+    // value): a different value, hence a different context
+    let framed = |label: &[u8], v: &[u8], with_suite: bool, with_label: bool| -> Vec<u8> {
+        let mut o = b"HPKE-v1".to_vec();
+        if with_suite {
+            o.extend_from_slice(&refhpke::hpke_suite_id(suite.kem, suite.kdf, suite.aead));
+            if with_label {
+                o.extend_from_slice(label);
+            }
+        }
+        o.extend_from_slice(v);
+        o
+    };
+    let frame_it = rng.chance(1, 8);
+    let (fs, fl) = (rng.chance(3, 4), rng.chance(3, 4));
     match choice {
+        0 if frame_it => c2.info = b(framed(b"info_hash", &cfg.info, fs, fl)),
+        1 if frame_it => c2.psk = b(framed(b"secret", &cfg.psk, fs, fl)),
+        2 if frame_it => c2.psk_id = b(framed(b"psk_id_hash", &cfg.psk_id, fs, fl)),
         0 => c2.info = b(perturb_bytes(rng, &cfg.info)),
         1 => {
             let mut p = perturb_bytes(rng, &cfg.psk);
@@ -1187,11 +1472,13 @@ pub fn gen_c08(rng: &mut Prng, run: u64, _t: &Tier) -> Vec<Ev> {
     let kem = if run >= 64 && matches!(kem, KemId::P384 | KemId::P521) && !rng.chance(1, 6) { KemId::X25519 } else { kem };
     let kind = (run / 4) % 4; // 0 other identity, 1 public half only, 2 non-auth mode, 3 wrong psk
     let mode = if kind == 3 { if rng.chance(1, 2) { ModeKind::Psk } else { ModeKind::AuthPsk } } else if rng.chance(1, 2) { ModeKind::Auth } else { ModeKind::AuthPsk };
-    let suite = SuiteId { kem, kdf: *rng.pick(&KDFS), aead: *rng.pick(&SEAL_AEADS), shim: false };
+    // export-only suites 1 run in 8: authentication then shows only in the exported secrets
+    let aead = if rng.chance(1, 8) { AeadId::Export } else { *rng.pick(&SEAL_AEADS) };
+    let suite = SuiteId { kem, kdf: *rng.pick(&KDFS), aead, shim: false };
     let mut cfg = gen_cfg(rng, suite, mode, 60);
     if mode.has_psk() && rng.chance(1, 5) {
         // PSKs longer than one hash block (64 / 128 bytes)
-        let l = *rng.pick(&[65usize, 100, 129, 200, 300, 1025, 2048, 5000]);
+        let l = *rng.pick(&[65usize, 100, 129, 200, 300, 1025, 2048, 5000, 8161, 12241, 16321, 20000]);
         cfg.psk = b(rng.rand_bytes(l));
         if cfg.psk_id.is_empty() {
             cfg.psk_id = b(rng.rand_bytes(7));
@@ -1204,9 +1491,11 @@ pub fn gen_c08(rng: &mut Prng, run: u64, _t: &Tier) -> Vec<Ev> {
     // legitimate session: shows the receiver works at all
     ev.push(Ev::SetupS { c: 0, cfg: cfg.clone(), kr: 0, ks, ks_pub: None, rng: rng_script(rng, kem), model_only: false });
     ev.push(Ev::SetupR { c: 0, cfg: cfg.clone(), kr: 0, ks, enc: EncSrc::Of(0), model_only: false });
-    let (pt, aad) = msg(rng, false);
-    ev.push(Ev::Seal { c: 0, pt, aad, inplace: false });
-    ev.push(Ev::Deliver { r: 0, from: 0, rec: RecRef::Next, fault: Fault::None, api: open_api(rng) });
+    if aead.seals() {
+        let (pt, aad) = msg(rng, false);
+        ev.push(Ev::Seal { c: 0, pt, aad, inplace: false });
+        ev.push(Ev::Deliver { r: 0, from: 0, rec: RecRef::Next, fault: Fault::None, api: open_api(rng) });
+    }
     ev.push(Ev::ExportCmp { s: 0, r: 0, ctx: b(vec![]), len: 32 });
     // impostor sender
     let mut icfg = cfg.clone();
@@ -1229,12 +1518,16 @@ pub fn gen_c08(rng: &mut Prng, run: u64, _t: &Tier) -> Vec<Ev> {
     ev.push(Ev::SetupS { c: 1, cfg: icfg, kr: 0, ks: iks, ks_pub: iks_pub, rng: rng_script(rng, kem), model_only: false });
     // the receiver, expecting the legitimate sender, processes the impostor's encapsulated key
     ev.push(Ev::SetupR { c: 1, cfg: cfg.clone(), kr: 0, ks, enc: EncSrc::Of(1), model_only: false });
-    for i in 0..rng.range(1, 3) {
-        let (pt, aad) = msg(rng, false);
-        ev.push(seal_ev(rng, 1, pt, aad));
-        ev.push(Ev::Deliver { r: 1, from: 1, rec: RecRef::Index(i), fault: Fault::None, api: open_api(rng) });
+    if aead.seals() {
+        for i in 0..rng.range(1, 3) {
+            let (pt, aad) = msg(rng, false);
+            ev.push(seal_ev(rng, 1, pt, aad));
+            ev.push(Ev::Deliver { r: 1, from: 1, rec: RecRef::Index(i), fault: Fault::None, api: open_api(rng) });
+        }
+        ev.push(Ev::Deliver { r: 1, from: 1, rec: RecRef::Index(0), fault: Fault::None, api: OpenApi::SingleShot });
     }
-    ev.push(Ev::Deliver { r: 1, from: 1, rec: RecRef::Index(0), fault: Fault::None, api: OpenApi::SingleShot });
+    // the impostor's exports against those of the legitimate sender's receiver as well
+    ev.push(Ev::ExportCmp { s: 1, r: 0, ctx: b(vec![]), len: 32 });
     for len in [16usize, 32, 64] {
         ev.push(Ev::ExportCmp { s: 1, r: 1, ctx: b(if rng.chance(1, 2) { vec![] } else { rng.rand_bytes(5) }), len });
     }
@@ -1422,6 +1715,36 @@ pub fn gen_c09(rng: &mut Prng, run: u64, t: &Tier) -> Vec<Ev> {
                 }
                 cands.push(v);
             }
+            // sparse scalars: one set bit at every position, and a few non-zero bytes at one end only
+            // (all below n, all valid): word-wise or partial zero tests misjudge them
+            for k in 0..n.bits() {
+                let mut v = vec![0u8; nsk];
+                v[nsk - 1 - k / 8] = 1 << (k % 8);
+                cands.push(v);
+            }
+            for _ in 0..6 {
+                let mut v = vec![0u8; nsk];
+                let m = rng.range(1, 3);
+                for i in 0..m {
+                    let x = rng.range(1, 255) as u8;
+                    if rng.chance(1, 2) {
+                        v[i] = if kem == KemId::P521 && i == 0 { 1 } else { x };
+                    } else {
+                        v[nsk - 1 - i] = x;
+                    }
+                }
+                cands.push(v);
+            }
+            // short inputs that a lenient parser would left-pad (valid small scalars once padded)
+            for l in [nsk - 1, nsk - 2, nsk - 8, 24, 16] {
+                if l < nsk {
+                    let mut v = rng.rand_bytes(l);
+                    if !v.is_empty() {
+                        v[0] &= 0x7f;
+                    }
+                    cands.push(v);
+                }
+            }
             for l in 0..=2 * nsk + 2 {
                 let mut v = sk.clone();
                 v.resize(l, 0x11);
@@ -1491,6 +1814,9 @@ pub fn gen_c10(rng: &mut Prng, run: u64, _t: &Tier) -> Vec<Ev> {
         0 => {
             ev.push(Ev::KeyRaw { k: 2, kem, sk: b(rng.rand_bytes(32)), pk: b(hostile) });
             ev.push(Ev::SetupS { c: 0, cfg: cfg.clone(), kr: 2, ks, ks_pub: None, rng: rng_script(rng, kem), model_only: false });
+            let again = rng_script(rng, kem);
+            ev.push(Ev::SetupS { c: 5, cfg: cfg.clone(), kr: 2, ks, ks_pub: None, rng: again.clone(), model_only: false });
+            ev.push(Ev::SetupS { c: 6, cfg: cfg.clone(), kr: 2, ks, ks_pub: None, rng: again, model_only: false });
             ev.push(Ev::KemProbe { kem, kr: 2, ks: None, rng: rng_script(rng, kem) });
             ev.push(Ev::KemProbe { kem, kr: 2, ks: Some(1), rng: rng_script(rng, kem) });
             let (pt, aad) = msg(rng, false);
@@ -1498,6 +1824,10 @@ pub fn gen_c10(rng: &mut Prng, run: u64, _t: &Tier) -> Vec<Ev> {
         }
         1 => {
             ev.push(Ev::SetupR { c: 0, cfg: cfg.clone(), kr: 0, ks, enc: EncSrc::Raw(b(hostile.clone())), model_only: false });
+            // the same attempt again with the same key objects: refused every time, not only the first
+            for _ in 0..rng.range(1, 2) {
+                ev.push(Ev::SetupR { c: 5, cfg: cfg.clone(), kr: 0, ks, enc: EncSrc::Raw(b(hostile.clone())), model_only: false });
+            }
             for tag in [None, Some(b(rng.bytes(16)))] {
                 ev.push(Ev::SingleShotOpenRaw { cfg: cfg.clone(), kr: 0, ks, enc: EncSrc::Raw(b(hostile.clone())), ct: b(rng.bytes(40)), aad: b(vec![]), tag });
             }
@@ -1520,6 +1850,7 @@ pub fn gen_c10(rng: &mut Prng, run: u64, _t: &Tier) -> Vec<Ev> {
             // an honest sender context (identity key 1) provides an honest ENC
             ev.push(Ev::SetupS { c: 0, cfg: cfg.clone(), kr: 0, ks: Some(1), ks_pub: None, rng: rng_script(rng, kem), model_only: false });
             ev.push(Ev::SetupR { c: 0, cfg: cfg.clone(), kr: 0, ks: Some(2), enc: EncSrc::Of(0), model_only: false });
+            ev.push(Ev::SetupR { c: 5, cfg: cfg.clone(), kr: 0, ks: Some(2), enc: EncSrc::Of(0), model_only: false });
             for tag in [None, Some(b(rng.bytes(16)))] {
                 ev.push(Ev::SingleShotOpenRaw { cfg: cfg.clone(), kr: 0, ks: Some(2), enc: EncSrc::Of(0), ct: b(rng.bytes(33)), aad: b(vec![1]), tag });
             }
@@ -1534,6 +1865,11 @@ pub fn gen_c10(rng: &mut Prng, run: u64, _t: &Tier) -> Vec<Ev> {
             // negatives: random strings and bit-flipped honest keys are never rejected
             let mut pkx = if rng.chance(1, 2) { rng.rand_bytes(32) } else { let mut v = small[enc_i].clone(); let bit = rng.range(8, 250); v[bit / 8] ^= 1 << (bit % 8); v };
             if rng.chance(1, 3) {
+                // "reject list" entries written without masking bit 255: most are ordinary points
+                let al = math::x25519_unmasked_aliases();
+                pkx = rng.pick(&al).clone();
+            }
+            if rng.chance(1, 3) {
                 // tiny u-coordinates (half of them on the twist): ordinary keys for X25519
                 pkx = vec![0u8; 32];
                 pkx[0] = rng.range(2, 40) as u8;
@@ -1547,6 +1883,23 @@ pub fn gen_c10(rng: &mut Prng, run: u64, _t: &Tier) -> Vec<Ev> {
                     ev[0] = Ev::Keygen { k: 0, kem, ikm: b(ikm_r) };
                     pkx = pk;
                 }
+            }
+            if rng.chance(1, 3) {
+                // a special-but-legal private key on the local side (recipient, and sender identity):
+                // honest peers must be served
+                let sk = x25519_special_sk(rng);
+                let pk = refhpke::pk_of(kem, &sk).unwrap();
+                ev.push(Ev::KeyRaw { k: 7, kem, sk: b(sk), pk: b(pk) });
+                let m2 = if rng.chance(1, 2) { ModeKind::Auth } else { ModeKind::Base };
+                let mut c2 = cfg.clone();
+                c2.mode = m2;
+                ev.push(Ev::SetupS { c: 7, cfg: c2.clone(), kr: 7, ks: if m2.has_auth() { Some(1) } else { None }, ks_pub: None, rng: rng_script(rng, kem), model_only: false });
+                ev.push(Ev::SetupR { c: 7, cfg: c2.clone(), kr: 7, ks: if m2.has_auth() { Some(1) } else { None }, enc: EncSrc::Of(7), model_only: false });
+                ev.push(Ev::ExportCmp { s: 7, r: 7, ctx: b(vec![]), len: 32 });
+                c2.mode = ModeKind::Auth;
+                ev.push(Ev::SetupS { c: 8, cfg: c2.clone(), kr: 0, ks: Some(7), ks_pub: None, rng: rng_script(rng, kem), model_only: false });
+                ev.push(Ev::SetupR { c: 8, cfg: c2, kr: 0, ks: Some(7), enc: EncSrc::Of(8), model_only: false });
+                ev.push(Ev::ExportCmp { s: 8, r: 8, ctx: b(vec![]), len: 32 });
             }
             if rng.chance(1, 4) {
                 // the same for the sender: recipient key crafted against the ephemeral key of the RNG script
@@ -1712,6 +2065,31 @@ pub fn gen_c12(rng: &mut Prng, run: u64, _t: &Tier) -> Vec<Ev> {
         let cv = math::curve(kem);
         let one = math::U::from_u64(1);
         for v in [cv.n.to_be(nsk), cv.n.add(&one).0.to_be(nsk), cv.n.sub(&one).0.to_be(nsk), vec![0xFFu8; nsk], vec![0u8; nsk], one.to_be(nsk)] {
+            ev.push(Ev::DecodeProbe { suite, kind, bytes: b(v) });
+        }
+        // sparse scalars: a single set bit at every position (only the leading bytes non-zero, only
+        // the trailing ones, ...): all of them below n are valid keys
+        for k in 0..cv.n.bits() {
+            let mut v = vec![0u8; nsk];
+            v[nsk - 1 - k / 8] = 1 << (k % 8);
+            ev.push(Ev::DecodeProbe { suite, kind, bytes: b(v) });
+        }
+        for _ in 0..8 {
+            // a few non-zero bytes at one end only
+            let mut v = vec![0u8; nsk];
+            let m = rng.range(1, 3);
+            if rng.chance(1, 2) {
+                for i in 0..m {
+                    v[i] = rng.range(1, 255) as u8;
+                }
+                if kem == KemId::P521 {
+                    v[0] &= 1;
+                }
+            } else {
+                for i in 0..m {
+                    v[nsk - 1 - i] = rng.range(1, 255) as u8;
+                }
+            }
             ev.push(Ev::DecodeProbe { suite, kind, bytes: b(v) });
         }
     }
@@ -1908,6 +2286,16 @@ pub fn gen_c14(rng: &mut Prng, run: u64, _t: &Tier) -> Vec<Ev> {
     let cfg = gen_cfg(rng, suite, mode, 100);
     ev.push(Ev::Keygen { k: 0, kem, ikm: ikm(rng) });
     ev.push(Ev::Keygen { k: 1, kem, ikm: ikm(rng) });
+    if kem == KemId::X25519 && rng.chance(1, 5) {
+        // special-but-legal private keys for the recipient and / or the sender identity
+        for k in 0..2 {
+            if rng.chance(2, 3) {
+                let sk = x25519_special_sk(rng);
+                let pk = refhpke::pk_of(kem, &sk).unwrap();
+                ev.push(Ev::KeyRaw { k, kem, sk: b(sk), pk: b(pk) });
+            }
+        }
+    }
     let ks = if mode.has_auth() { Some(1) } else { None };
     let mut kr = 0;
     let failing = kem == KemId::X25519 && rng.chance(1, 5);
@@ -1978,6 +2366,20 @@ pub fn gen_c15(rng: &mut Prng, run: u64, _t: &Tier) -> Vec<Ev> {
         // equal contents are a legal bundle too
         let same = rng.var_bytes(64);
         ev.push(Ev::PskProbe { psk: b(same.clone()), psk_id: b(same) });
+    }
+    {
+        // related values: one a prefix / suffix / reversal of the other (an id cut from the key, a key
+        // derived by extending the id, ...): all legal
+        let ll = rng.range(2, 48);
+        let long = rng.rand_bytes(ll);
+        let k = rng.range(1, long.len() - 1);
+        let (x, y) = match rng.below(4) {
+            0 => (long.clone(), long[..k].to_vec()),
+            1 => (long[..k].to_vec(), long.clone()),
+            2 => (long.clone(), long[long.len() - k..].to_vec()),
+            _ => (long.clone(), long.iter().rev().copied().collect()),
+        };
+        ev.push(Ev::PskProbe { psk: b(x), psk_id: b(y) });
     if run % 4000 == 17 {
         // lengths whose product or sum wraps in 32 or 64 bits (a handful per batch: each maps up to 8 GiB of zero pages without touching them)
         let ls = [1u64 << 31, (1 << 31) + 1, 1 << 32, (1 << 32) - 1, (1 << 32) + 1, 1 << 33, 1 << 16, 3, 0];
@@ -2057,6 +2459,16 @@ pub fn gen_c16(rng: &mut Prng, run: u64, _t: &Tier) -> Vec<Ev> {
             ev.push(Ev::Teardown { c, role: Role::S });
             ev.push(Ev::Teardown { c, role: Role::R });
         }
+    }
+    if !crate::special::SS_TABLE.is_empty() && rng.chance(1, 12) {
+        // an AuthEncap whose *shared secret* has a special shape (four zero bytes in front, at the end,
+        // or at every 8th position; found by search over the claimed sender key, special.rs)
+        let e = rng.pick(crate::special::SS_TABLE);
+        let kem = KemId::X25519;
+        let (sk_s, _, _) = refhpke::derive_keypair(kem, crate::special::SS_IKM_S);
+        ev.push(Ev::Keygen { k: 24, kem, ikm: b(crate::special::SS_IKM_R.to_vec()) });
+        ev.push(Ev::KeyRaw { k: 25, kem, sk: b(sk_s), pk: b(unhex(e.claimed_pk_s)) });
+        ev.push(Ev::KemProbe { kem, kr: 24, ks: Some(25), rng: b(crate::special::SS_SCRIPT.to_vec()) });
     }
     // KEM-only exchanges for the shared secret
     let kem = KEMS[(run % 4) as usize];
